@@ -166,11 +166,18 @@ Terminates == <>(phase = "done")
 (*   at_elt  - its location is the corrupted element (or, for a segment, the *)
 (*             Representation/AdaptationSet that owns the segment)           *)
 (*   at_url  - its message quotes the corrupted response's URL / file name   *)
+(*             (for a media segment: the segment's own name)                 *)
 (*   names   - its message names the corrupted box / attribute               *)
-LocatedError(e) == e.at_elt = 1 \/ e.at_url = 1 \/ e.names = 1
+\* A media segment is an element of its own (every MediaSegment error is prefixed with the segment's name).  When the
+\* validator has already checked an earlier segment of the same Representation in this session (pred = 1) it has what it
+\* needs to pin the corruption on the segment itself, and an error about a neighbour does not locate it.  For the first
+\* segment of a Representation, for init segments and for manifests the weakest reading applies.
+LocatedError(e, target, pred) ==
+    IF target = "media" /\ pred = 1 THEN e.at_url = 1
+    ELSE e.at_elt = 1 \/ e.at_url = 1 \/ e.names = 1
 
 SessionTerminates(r) == r.finished = 1 /\ r.crash = 0
 SessionNoFalsePositive(r) == (r.applied = 0) => (r.nerr = 0)
 SessionDetects(r) == (r.applied = 1) => (r.nerr > 0)
-SessionLocated(r) == (r.applied = 1 /\ r.nerr > 0) => \E i \in 1..Len(r.errors) : LocatedError(r.errors[i])
+SessionLocated(r) == (r.applied = 1 /\ r.nerr > 0) => \E i \in 1..Len(r.errors) : LocatedError(r.errors[i], r.target, r.pred)
 =============================================================================
